@@ -21,13 +21,39 @@ def flag_kind(du, l):
         va, vb = du.val_operand(a), du.val_operand(b)
         for x, y, xo in ((va, vb, a), (vb, va, b)):
             if y[0] == "const" and isinstance(y[1], dict) and "char" in y[1] and xo.get("k") in ("copy", "move"):
-                return ("eq", y[1]["char"], du.canon(place_key(xo))[0], d[1])
+                return ("eq", y[1]["char"], du.canon(place_key(xo))[0], d[1], du.canon(place_key(xo)))
     if d[0] == "call":
         c = callee_name(d[3]) or ""
-        if c.endswith("impl char>::is_numeric") or c.endswith("impl char>::is_ascii_digit") or c.endswith("impl char>::is_digit"):
+        m = _re_pred.search(c)
+        if m and m.group(1) in CHAR_PREDS and d[3]["args"]:
             a = d[3]["args"][0]
             if a.get("k") in ("copy", "move"):
-                return ("numeric", None, du.canon(place_key(a))[0], d[1])
+                return (CHAR_PREDS[m.group(1)], None, du.canon(place_key(a))[0], d[1], du.canon(place_key(a)))
+    return None
+
+
+import re as _re_mod
+_re_pred = _re_mod.compile(r"impl char>::(\w+)$")
+# std predicates of `char` the dispatchers use, by the class of characters they hold for
+CHAR_PREDS = {"is_numeric": "numeric", "is_ascii_digit": "numeric", "is_digit": "numeric",
+              "is_whitespace": "ws", "is_ascii_whitespace": "ws", "is_control": "control", "is_ascii_control": "control",
+              "is_alphabetic": "alpha", "is_ascii_alphabetic": "alpha", "is_ascii_lowercase": "alpha", "is_lowercase": "alpha",
+              "is_alphanumeric": "alnum", "is_ascii_alphanumeric": "alnum", "is_ascii_punctuation": "punct"}
+
+
+def pred_value(kind, ch):
+    """value of a std char predicate on a first character the writer emits (\" [ { n t f - or a decimal digit)"""
+    digit = ch == "<digit>"
+    if kind == "numeric":
+        return digit
+    if kind in ("ws", "control"):
+        return False
+    if kind == "alpha":
+        return ch in ("n", "t", "f")
+    if kind == "alnum":
+        return digit or ch in ("n", "t", "f")
+    if kind == "punct":
+        return ch in ('"', "[", "{", "-")
     return None
 
 
@@ -45,10 +71,14 @@ class KindEval:
         self.tracked = set(tracked) | set(self.flags)
 
     def class_value(self, l):
-        kind, c, chl, defb = self.flags[l]
+        kind, c = self.flags[l][0], self.flags[l][1]
         if kind == "eq":
             return c == self.ch
-        return self.ch == "<digit>"
+        return pred_value(kind, self.ch)
+
+    def is_dispatch_operand(self, x):
+        ck = self.du.canon(place_key(x))
+        return ck[0] in self.char_locals and not ck[1]
 
     def ev_operand(self, o, env, depth=0):
         if o.get("k") == "const":
@@ -76,7 +106,7 @@ class KindEval:
             # comparison of the dispatch character with a character constant, written inline
             a, b = rv["ops"]
             for x, y in ((a, b), (b, a)):
-                if x.get("k") in ("copy", "move") and self.du.canon(place_key(x))[0] in self.char_locals and not self.du.canon(place_key(x))[1]:
+                if x.get("k") in ("copy", "move") and self.is_dispatch_operand(x):
                     vy = self.du.val_operand(y)
                     if vy[0] == "const" and isinstance(vy[1], dict) and "char" in vy[1]:
                         if not env.get("fresh", True):
@@ -159,6 +189,183 @@ class KindEval:
                     stack.append(st)
         return vals
 
+_SINGLE = {c for cs in EMITTED.values() for c in cs if len(c) == 1}
+
+
+def _is_char_read(F, G, t, cache):
+    """the call takes more input: a std Read / BufRead method, `next` of a character iterator, or a crate function that reaches one"""
+    c = t.get("callee") or ""
+    n = callee_name(t) or ""
+    if c.startswith("std::io::Read::") or c.startswith("std::io::BufRead::"):
+        return True
+    if c in ("std::iter::Iterator::next", "core::iter::Iterator::next", "std::iter::Peekable::<I>::peek") or n.endswith("as std::iter::Iterator>::next"):
+        recv = (t.get("arg_tys") or [""])[0]
+        if any(x in recv for x in ("Chars", "CharIndices", "Bytes", "Peekable")):
+            return True
+    g = F.fns.get(n)
+    if g is not None and g.crate == "rws":
+        if n not in cache:
+            seen = G.reachable([n])
+            cache[n] = any(_is_std_read_name(F, m) for m in seen)
+        return cache[n]
+    return False
+
+
+def _is_std_read_name(F, m):
+    return " as std::io::Read>::" in m or " as std::io::BufRead>::" in m or m.startswith("std::io::Read::") or m.startswith("std::io::BufRead::")
+
+
+def find_dispatch(fn):
+    """(canonical access path of the dispatch character, its char locals, kind flags on it): the character that is compared with the most
+    first characters of the writer, by `==` or as the scrutinee of a `match`"""
+    du, cfg = du_of(fn), cfg_of(fn)
+    flags, cmp = {}, {}
+    for l in range(len(fn.locals)):
+        if fn.local_ty(l) != "bool":
+            continue
+        fk = flag_kind(du, l)
+        if fk:
+            flags[l] = fk
+            if fk[0] == "eq" and fk[1] in _SINGLE:
+                cmp.setdefault(fk[4], set()).add(fk[1])
+    for b in cfg.live_blocks():
+        t = cfg.blocks[b]["term"]
+        if t["k"] == "switch" and t.get("discr_ty") == "char" and t["discr"].get("k") in ("copy", "move"):
+            ck = du.canon(place_key(t["discr"]))
+            for v, _ in t["targets"]:
+                if chr(v) in _SINGLE:
+                    cmp.setdefault(ck, set()).add(chr(v))
+    if not cmp:
+        return None
+    dkey = max(cmp, key=lambda k: (len(cmp[k]), -k[0]))
+    if len(cmp[dkey]) < 4:
+        return None
+    char_locals = {l for l in range(len(fn.locals)) if fn.local_ty(l) == "char" and du.canon((l, ())) == dkey}
+    if not dkey[1]:
+        char_locals.add(dkey[0])
+    return dkey, char_locals, {l: v for l, v in flags.items() if v[4] == dkey}
+
+
+class DispatchEval(KindEval):
+    """the dispatch written as a `match` on the first character (or any other shape without one rejection flag): walk from the place the
+    character is read, with every test of the character decided by its class, up to the next read of input; a directly constructed Err
+    that is reachable on the way, behind a test of the character, rejects a value on its first character"""
+
+    def __init__(self, F, G, fn, flags, tracked, ch, dkey, char_locals, read_cache):
+        KindEval.__init__(self, fn, {}, tracked, None, flags=flags, ch=ch, char_locals=frozenset(char_locals))
+        self.F, self.G, self.dkey, self.read_cache = F, G, dkey, read_cache
+        # root definitions of the character (not the copies of one char local into another)
+        self.roots = set()
+        for l in char_locals:
+            for d in self.du.defs.get(l, []):
+                if d[0] == "assign" and d[3]["k"] == "use" and d[3]["ops"][0].get("k") in ("copy", "move") and not d[3]["ops"][0]["p"] and d[3]["ops"][0]["l"] in char_locals:
+                    continue
+                self.roots.add((d[1], d[2]))
+        # bool locals whose value depends on the character
+        dep = set(self.flags)
+        changed = True
+        while changed:
+            changed = False
+            for l in range(len(fn.locals)):
+                if l in dep or fn.local_ty(l) != "bool":
+                    continue
+                for d in self.du.defs.get(l, []):
+                    if d[0] != "assign":
+                        continue
+                    ops = [o for o in d[3].get("ops", []) if o.get("k") in ("copy", "move")]
+                    if any((not o["p"] and o["l"] in dep) or self.is_dispatch_operand(o) for o in ops):
+                        dep.add(l)
+                        changed = True
+                        break
+        self.dep = dep
+
+    def is_dispatch_operand(self, x):
+        return self.du.canon(place_key(x)) == self.dkey or (not x["p"] and x["l"] in self.char_locals)
+
+    def char_targets(self, t):
+        tg = {chr(v): tb for v, tb in t["targets"]}
+        if self.ch == "<digit>":
+            out = {tb for c, tb in tg.items() if c in "0123456789"}
+            if sum(1 for c in tg if c in "0123456789") < 10:
+                out.add(t["otherwise"])
+            return sorted(out)
+        return [tg.get(self.ch, t["otherwise"])]
+
+    def run(self):
+        """(rejections, reads reached, complete): rejections = blocks that construct an Err behind a test of the character"""
+        rej, reads, complete = set(), 0, True
+        stack, seen = [], set()
+        from .. import loops as L
+        lps = L.loops_of(self.fn)
+        depth = {r: sum(1 for lp in lps if r[0] in lp.body) for r in self.roots}
+        for rb, ri in self.roots:
+            # the first character of a value is read in the outermost loop; reads nested deeper continue a token
+            if depth[(rb, ri)] == min(depth.values()):
+                stack.append((rb, ri, (("tested", False),)))
+        steps = 0
+        while stack:
+            steps += 1
+            if steps > 120000:
+                complete = False
+                break
+            b, start, envt = stack.pop()
+            env = {(int(k) if k.lstrip("-").isdigit() else k): v for k, v in envt}
+            env["fresh"] = True
+            blk = self.cfg.blocks[b]
+            stop = False
+            first = 0 if start is None else (len(blk["stmts"]) if start == "term" else start + 1)
+            for i, s in enumerate(blk["stmts"]):
+                if i < first or s["k"] != "assign":
+                    continue
+                pl = s["place"]
+                if not pl["p"] and (b, i) in self.roots:
+                    reads += 1
+                    stop = True
+                    break
+                if not pl["p"] and pl["l"] in self.flags:
+                    env[pl["l"]] = self.class_value(pl["l"])
+                    continue
+                if not pl["p"] and pl["l"] in self.tracked:
+                    env[pl["l"]] = self.ev_rvalue(s["rv"], env)
+                    continue
+                if not pl["p"] and s["rv"]["k"] == "aggregate" and s["rv"].get("variant") == "Err" and env.get("tested"):
+                    rej.add(b)
+            if stop:
+                continue
+            t = blk["term"]
+            succs = term_succs(t)
+            if t["k"] == "call" and start != "term":
+                if (b, "term") in self.roots or _is_char_read(self.F, self.G, t, self.read_cache):
+                    reads += 1
+                    continue
+                d = t.get("dest")
+                if d is not None and not d["p"] and d["l"] in self.flags:
+                    env[d["l"]] = self.class_value(d["l"])
+                elif d is not None and not d["p"] and d["l"] in self.tracked:
+                    env[d["l"]] = None
+            if t["k"] == "call":
+                succs = [x for x in [t.get("target")] if isinstance(x, int)]
+            if t["k"] == "switch" and t.get("discr_ty") == "bool":
+                x = self.ev_operand(t["discr"], env)
+                o = t["discr"]
+                if o.get("k") in ("copy", "move") and not o["p"] and (o["l"] in self.dep or self.du.canon(place_key(o))[0] in self.dep):
+                    env["tested"] = True
+                if x is not None:
+                    for val, tb in t["targets"]:
+                        succs = [tb] if bool(val) == x else [t["otherwise"]]
+            elif t["k"] == "switch" and t.get("discr_ty") == "char" and t["discr"].get("k") in ("copy", "move") and self.is_dispatch_operand(t["discr"]):
+                env["tested"] = True
+                succs = self.char_targets(t)
+            env.pop("fresh", None)
+            for s_ in succs:
+                if s_ not in self.cfg.blocks or self.cfg.blocks[s_].get("cleanup"):
+                    continue
+                st = (s_, None, tuple(sorted((str(k), v) for k, v in env.items())))
+                if st not in seen:
+                    seen.add(st)
+                    stack.append(st)
+        return rej, reads, complete
+
 
 def find_rejection(fn):
     """(R local, switch block) : a multi-def bool local assigned `false` on >= 3 short-circuit exits, whose true edge leads straight to an Err return"""
@@ -203,6 +410,7 @@ def run(ctx):
     chk.extra["exhaustive"] = True
     r1 = chk.rule("R1-reader-covers-writer", "in each dispatcher, for each first-character class the writer emits, the rejection flag of the kind dispatch evaluates to definitely false", floor=16)
     accept = {}
+    read_cache = {}
     for name in DISPATCHERS:
         fn = F.fns.get(name)
         if fn is None:
@@ -212,7 +420,29 @@ def run(ctx):
         cfg = cfg_of(fn)
         rej = find_rejection(fn)
         if not rej:
-            r1.violate("C19|R1|%s|no-rejection-flag" % name, "%s: the 'unknown kind' rejection (a conjunction of negated kind flags leading to Err) was not found (anchor missing; fail closed)" % name, fn.file, fn.span["line"], name)
+            # no single rejection flag (the dispatch is a `match` on the character, or sits in helpers): walk from the read of the character
+            fi = ctx.inl(fn)
+            disp = find_dispatch(fi)
+            if disp is None:
+                r1.violate("C19|R1|%s|no-rejection-flag" % name, "%s: neither the 'unknown kind' rejection (a conjunction of negated kind flags leading to Err) nor a character that is compared with the writer's first characters was found (anchor missing; fail closed)" % name, fn.file, fn.span["line"], name)
+                continue
+            dkey, chl, dflags = disp
+            dui = du_of(fi)
+            tracked = {l for l in range(len(fi.locals)) if fi.local_ty(l) == "bool" and 1 < len(dui.defs.get(l, [])) <= 3 and fi.local_name(l) and all(d[0] == "assign" for d in dui.defs[l])}
+            accepted = []
+            for kind, chars in EMITTED.items():
+                for ch in chars:
+                    rj, reads, complete = DispatchEval(F, G, fi, dflags, tracked, ch, dkey, chl, read_cache).run()
+                    ok = not rj and reads > 0 and complete
+                    if ok:
+                        accepted.append(ch)
+                    lines = sorted({cfg_of(fi).blocks[b]["term"]["span"]["line"] for b in rj})
+                    r1.instance({"reader": name, "value_kind": kind, "first_char": ch, "mode": "walk from the read of the character to the next read", "err_constructed_behind_a_test_of_the_character_at_lines": lines, "next_reads_reached": reads}, ok)
+                    if not ok:
+                        r1.violate("C19|R1|%s|%s" % (name, ch), "%s: a value starting with %r (which the writer emits for kind '%s') %s" % (name, ch, kind,
+                                   "reaches an Err built on the strength of that character alone, before any further input is read (lines %s)" % lines if rj else "could not be followed to the next read of input (exploration incomplete; fail closed)"),
+                                   fi.file, lines[0] if lines else fn.span["line"], name)
+            accept[name] = accepted
             continue
         # the rejection with the most conjuncts is the kind dispatch
         rl, rsb, nf = sorted(rej, key=lambda x: -x[2])[0]
